@@ -67,20 +67,19 @@ theorem snap_load_of_inv (lim : Limits) (s : AuthState) (h : SnapInv lim s) :
 theorem snap_save_dirty (s : AuthState) (h : s.dirty = true) : save s = none := by
   unfold save; rw [h]; rfl
 
-theorem snap_authorize_dirty (cfg : EvalCfg) (tok : Token) (s : AuthState) (w : World) (ap : AuthorityPhase)
-    (h : authorityPhase cfg tok.authority s = (w, .ok ap)) : (authorize cfg tok s).1.dirty = true := by
+theorem snap_authorize_dirty (cfg : EvalCfg) (tok : Token) (s : AuthState) :
+    (authorize cfg tok s).1.dirty = true := by
   unfold authorize authorizeWith
-  rw [h]
-  simp only
   split
   · rfl
-  · split <;> rfl
+  · simp only
+    split
+    · rfl
+    · split <;> rfl
 
-theorem snap_query_dirty (cfg : EvalCfg) (s : AuthState) (q : DRule) (fs : List DFact)
-    (h : (query cfg s q).2 = .ok fs) : (query cfg s q).1.dirty = true := by
-  unfold query at h ⊢
-  split at h
-  · cases h
-  · rfl
+theorem snap_query_dirty (cfg : EvalCfg) (s : AuthState) (q : DRule) :
+    (query cfg s q).1.dirty = true := by
+  unfold query
+  split <;> rfl
 
 end Biscuit
